@@ -116,7 +116,10 @@ impl TermGen {
             0..=10 => self.ent(r),
             11..=15 => format!("{}", r.below(self.n_num)),
             _ => {
-                if self.spaced && r.chance(1, 3) {
+                if self.hash_ns && r.chance(1, 4) {
+                    // a '#' inside a literal is no comment
+                    format!("w{}#x", r.below(self.n_word))
+                } else if self.spaced && r.chance(1, 3) {
                     format!("w{} w{}", r.below(self.n_word), r.below(self.n_word))
                 } else {
                     ds::word(r.below(self.n_word))
@@ -511,6 +514,16 @@ fn gen_line_doc(r: &mut Rng, fmt: Fmt, o: &DocOpts, tg: &TermGen) -> Doc {
             continue;
         }
         w.statement(remaining);
+        // N3 only: a comment after the statement's final dot (the other loaders take the
+        // last character of a line for the statement end and are documented without comments)
+        if fmt == Fmt::N3 && o.comments && w.r.chance(1, 10) {
+            let n = w.lines.len();
+            if let Some(last) = w.lines.last_mut() {
+                if last.trim_end().ends_with('.') {
+                    last.push_str(&format!(" # c{} <not-an-iri> \"x", n));
+                }
+            }
+        }
     }
     Doc { fmt, quads: w.quads, lines: w.lines, stmts: w.stmts, opts: o.clone() }
 }
